@@ -24,6 +24,8 @@ type WorkerConfig struct {
 	MaxSweepLen int    `json:"max_sweep_len"` // do not sweep scripts longer than this
 	LogPath     string `json:"log_path,omitempty"`
 	MultiOK     bool   `json:"multi_ok"`
+	// SchedSeeds > 0: scheduled leg — every case is executed under this many seeded schedules.
+	SchedSeeds int `json:"sched_seeds,omitempty"`
 }
 
 // ViolationRec is one recorded oracle violation.
@@ -132,7 +134,20 @@ func RunWorker(h Hooks, cfg WorkerConfig) *WorkerResult {
 		if m := mc.At(len(sc.Bytes)); m != nil && len(m.Stdout) > 4096 {
 			res.Probes["script-output-over-4KiB"]++
 		}
+		var one1 func(c Case, sweep bool)
+		schedNo := uint64(0)
 		one := func(c Case, sweep bool) {
+			if cfg.SchedSeeds == 0 {
+				one1(c, sweep)
+				return
+			}
+			for i := 0; i < cfg.SchedSeeds; i++ {
+				schedNo++
+				c.Sched = prng.Derive(cfg.Seed, "c16-schedule", schedNo) | 1
+				one1(c, sweep)
+			}
+		}
+		one1 = func(c Case, sweep bool) {
 			if res.Hung {
 				return // a previous execution never returned: its goroutine is still spinning
 			}
